@@ -34,9 +34,20 @@ def execute(mod, ctx, case):
     ctx.dir = ctx.sb.case_dir()
     try:
         mod.run(case, ctx, res)
-    except Exception:  # harness bug or unexpected library behaviour outside any oracle
-        res.stats["harness_errors"] += 1
-        res.notes.append(traceback.format_exc(limit=-8))
+    except Exception as exc:  # harness bug or unexpected library behaviour outside any oracle
+        esc = getattr(mod, "ESCAPED_LIBRARY_ERROR", None)
+        tb = exc.__traceback__
+        while tb is not None and tb.tb_next is not None:
+            tb = tb.tb_next
+        inner = os.path.realpath(tb.tb_frame.f_code.co_filename) if tb is not None else ""
+        if esc and inner.startswith(ctx.pkgdir + os.sep):
+            # the module handles every rejection it expects itself: an exception raised inside the library that
+            # escapes from it was raised for an input the property says must work
+            res.viol(esc[0], "%s:%s" % (esc[1], type(exc).__name__), "the library raised %s: %s (%s:%d)" % (
+                type(exc).__name__, str(exc)[:160], os.path.relpath(inner, ctx.pkgdir), tb.tb_lineno))
+        else:
+            res.stats["harness_errors"] += 1
+            res.notes.append(traceback.format_exc(limit=-8))
     finally:
         ctx.sb.reset(ctx.dir)
         ctx.dir = None
